@@ -296,7 +296,7 @@ def _check_enum_blaze(case):
         return None   # outside the property's domain
     eids, qids = _enum_labeling(n, code, lab)
     col = Collector()
-    blocks = _check_blaze_on(rows, n, eids, qids, lab == 2 and code % 8 == 0, col,
+    blocks = _check_blaze_on(rows, n, eids, qids, lab == 2 and (code >> 1) % 4 == 0, col,
                              lambda: f"matrix {_strings_from_rows(rows, n)} eids {eids} qids {qids}")
     col.done()
     return blocks
@@ -923,10 +923,10 @@ def _check_steady(case):
 SUBCHECKS = [
     EnumSub("enum_blaze", _chunks_enum_blaze, _run_chunk_enum_blaze, check=_check_enum_blaze),
     HypSub("blaze_sampled", _sampled_case, _check_sampled, _classify_sampled,
-           budget={"quick": 4000, "thorough": 320000}),
+           budget={"quick": 4000, "thorough": 240000}),
     EnumSub("enum_sequential", _chunks_enum_seq, _run_chunk_enum_seq, check=_check_sequential),
     HypSub("sequential_models", _seq_case, _check_sequential, _seq_classify,
-           budget={"quick": 2400, "thorough": 80000}),
+           budget={"quick": 2400, "thorough": 50000}),
     HypSub("steady_blocks", _steady_case, _check_steady, _steady_classify,
-           budget={"quick": 640, "thorough": 16000}),
+           budget={"quick": 640, "thorough": 12000}),
 ]
